@@ -32,7 +32,9 @@ for pid in sorted(os.listdir(incoming)):
             else:
                 try:
                     for prop in [pid] + EXTRA.get((pid, k), []):
-                        out = subprocess.run(["python3-vt", os.path.join(ROOT, "pyvc", "check.py"), prop, "--tier", "quick"], capture_output=True, text=True, cwd=ROOT)
+                        # evidence / replays of a run on a deliberately broken tree go to a scratch directory, not into /verif
+                        out = subprocess.run(["python3-vt", os.path.join(ROOT, "pyvc", "check.py"), prop, "--tier", "quick"], capture_output=True, text=True, cwd=ROOT,
+                                             env=dict(os.environ, PYVC_OUT="/tmp/seed_matrix_out"))
                         viol = [l for l in out.stdout.splitlines() if l.startswith("VIOLATION")]
                         names = []
                         for l in viol:
